@@ -258,8 +258,44 @@ class RawGen:
                     outs = [self.leaf()] + outs
                 raw = self.value_kind(self.func(self.r.choice([1, 1, 2, 3]), outs))
                 ops.append({"op": "rawinvoke", "scope": s, "fn": fn, "raw": raw, "opts": None})
+        canonicalize_plain_structs(ops)
         return {"id": cid, "profile": "raw", "config": {"defer": self.ch(0.3), "recover": self.ch(0.5), "dry": True},
                 "share_info": self.ch(0.4), "fns": [], "ops": ops}
+
+
+def canonicalize_plain_structs(ops):
+    """A pointer to an anonymous struct that embeds *dig.In / *dig.Out (not dig.In / dig.Out) is, for
+    dig, an ordinary value type.  The model numbers every anonymous struct type alike
+    (GoTypes.tcode (GStruct _) = 34), so two DIFFERENT such types in one history would be one key
+    for the model and two for dig.  All of them are therefore replaced by the first one met: the
+    history then uses one such type, possibly many times, and the numbering is faithful."""
+    import copy
+    canon = [None]
+
+    def plain(st):
+        emb = [f["ty"] for f in st["fields"] if f.get("embedded")]
+        return any(t["t"] == "ptr" and t["e"]["t"] in ("in", "out") for t in emb) and \
+            not any(t["t"] in ("in", "out") for t in emb)
+
+    def walk(t):
+        if t["t"] == "ptr":
+            e = t["e"]
+            if e["t"] == "struct" and plain(e):
+                if canon[0] is None:
+                    canon[0] = copy.deepcopy(e)
+                t["e"] = copy.deepcopy(canon[0])
+                return
+            walk(e)
+        elif t["t"] == "slice":
+            walk(t["e"])
+        elif t["t"] == "struct":
+            for f in t["fields"]:
+                walk(f["ty"])
+    for o in ops:
+        raw = o.get("raw")
+        if raw:
+            for t in raw.get("ins", []) + raw.get("outs", []):
+                walk(t)
 
 
 def generate(seed, count, valid_bias=0.7):
